@@ -332,7 +332,8 @@ INIT = {
                  'self._stdout_buffer', 'self._stderr_buffer', 'self._original_stdout', 'self._original_stderr'],
     'ensures': CI + [
         # C05: the per-test hook list is exactly the test layer and its transitive bases, bases first, once each
-        "forall(x, Layer, iff(x in self.layers, isanc(x, layer_of(layer_name))))",
+        "forall(x, Layer, implies(x in self.layers, isanc(x, layer_of(layer_name))))",
+                "forall(x, Layer, implies(isanc(x, layer_of(layer_name)), x in self.layers))",
         "self._stdout_buffer is None and self._stderr_buffer is None",
         ORIG, "G.stdout == old(G.stdout) and G.stderr == old(G.stderr)",          # C13: __init__ does not touch the streams
         "self.testsRun == 0 and not self.shouldStop and len(self.failures) == 0 and len(self.errors) == 0"
